@@ -31,14 +31,14 @@ GInit == Init /\ hist = [init |-> FunToPairs(device), steps |-> <<>>]
 
 GNext ==
     \/ /\ Room
-       /\ \/ \E id \in TxnId, R \in ReqSample, d \in BOOLEAN :
-               TxBegin(id, R, d) /\ In([op |-> "txset", id |-> id, dry |-> d, intents |-> R])
+       /\ \/ \E id \in TxnId, R \in ReqSample, d \in BOOLEAN, f \in FailKinds, t \in TmoKinds :
+               TxBegin(id, R, d, f, t) /\ In([op |-> "txset", id |-> id, dry |-> d, intents |-> R, devfail |-> (f = "device"), tmoc |-> t])
           \/ \E id \in TxnId, R \in {{i} : i \in RandomSubset(1, IntentSet)} :
                /\ GoodRequest(R) /\ TxRefused(id)
-               /\ In([op |-> "txset", id |-> id, dry |-> FALSE, intents |-> R])
+               /\ In([op |-> "txset", id |-> id, dry |-> FALSE, intents |-> R, devfail |-> FALSE, tmoc |-> "long"])
           \/ \E id \in TxnId : Confirm(id) /\ In([op |-> "confirm", id |-> id])
           \/ \E id \in TxnId : Cancel(id) /\ In([op |-> "cancel", id |-> id])
-          \/ Expire /\ In([op |-> "wait"])
+          \/ Wait /\ In([op |-> "wait"])
     \/ /\ (TxReject \/ TxDryRun \/ TxApply \/ TxApplyFail \/ (\E o \in Owner : TxPersistIntent(o))
            \/ TxPersistRunning \/ TxArm \/ EnvSync)
        /\ UNCHANGED hist
